@@ -33,7 +33,11 @@ CHECKS['C12'] = (
     '(byte order, format, address size, version) configurations; names and opcodes are in bijection on operations. The operand signature of every opcode is '
     'regenerated from the live dispatch closures on each run and kernel-checked against the standard table.',
     'Hand-modelled: the parse_expr loop, read_blob and the closure shapes (recognised by introspection; unrecognised shapes are refused and break the tie theorem). '
-    'DW_OP_lo_user/hi_user are range markers, excluded from the bijection as the standard defines them. CPython recursion limit (~300 nested blocks) is outside the model.',
+    'Composed with C04 end to end: debug_info_exprs_exact / debug_types_exprs_exact (every expression-class attribute of every entry of a well-formed forest parses, in THAT unit\'s configuration, to the encoded '
+    'operations; parser_cache_independent, dispatch_key_exact: byte order, address size and reference size — hence the version — are exactly what a dispatch table depends on). Operand extremes are explicit corollaries '
+    '(blocks of length 0/255/256+, 10/11-byte LEB128, both address sizes, reference operands: address-sized in DWARF 2 since fix ref-operand-dwarf2). Truncation at every byte is a theorem (cut at an operation boundary -> the '
+    'prefix; inside an operation -> ELFParseError). DW_OP_lo_user/hi_user are range markers, excluded from the bijection as the standard defines them. Correspondence-only: arbitrary bytes (unknown opcodes, byte flips). '
+    'CPython recursion limit (~300 nested blocks) is outside the model.',
     'DESIGN.md §6 C12')
 
 CHECKS['C06'] = (
@@ -139,10 +143,12 @@ CHECKS['C05'] = (
     'header parameters, every standard/extended/special/unknown opcode, padded LEB128; decoding consumes exactly the extent; header round trip for versions <= 4 (v5 closed '
     'instances); cache coherence; regenerated header struct and DW_LNS/DW_LNE constants tied to the Spec; correspondence on spec-encoded and mutated programs',
     'Proof: rows equal the standard machine\'s for every well-formed program; the program attached to a unit is the one DW_AT_stmt_list designates.',
-    'line_header_roundtrip_ext / _v5 cover versions 2-5 with any extension bytes under header_length (honoured since fix 087c37c: line_header_length_honoured), the composed v5 header incl. resolved names '
-    'and the synthesised legacy views, end-to-end forms for v5; parameters need only fit their fields: zero line_range / maximum_operations_per_instruction give exactly ZeroDivisionError at the first '
-    'dividing instruction (line_zero_division, line_divZero_iff). Correspondence-only: truncation, header_length below the known fields, disallowed (content type, form) pairs, v5 tables without a first '
-    'entry, DW_LNE_define_file in v5, get_entries memoisation (C10). DW_FORM_strx* in line tables raises NotImplementedError (split DWARF, outside WF).',
+    'line_header_roundtrip_ext / _v5 cover versions 2-5 with any extension bytes under header_length (honoured since fix 087c37c), the composed v5 header incl. resolved names and the synthesised legacy views; '
+    'parameters need only fit their fields: zero line_range / maximum_operations_per_instruction give exactly ZeroDivisionError at the first dividing instruction. End to end from section bytes, composed with C04: '
+    'line_programs_from_sections (for every well-formed forest and every .debug_line description — programs shared by units, in any order, with gaps — line_program_for_CU of every unit of iter_CUs() is the program '
+    'its DW_AT_stmt_list designates: header, extent, rows = the standard machine), stmt_list_absent_from_sections, stmt_list_beyond_section, stmt_list_without_debug_line, linetable_cache_shared; whole files through '
+    'C11\'s view (line_programs_of_file: plain / gABI / .zdebug storage alike). Correspondence-only: truncation, header_length below the known fields, disallowed (content type, form) pairs, DW_AT_stmt_list in a '
+    'non-lineptr form, get_entries memoisation (C10). DW_FORM_strx* in line tables raises NotImplementedError (split DWARF, outside WF).',
     'DESIGN.md §6 C05')
 CHECKS['C07'] = (
     'Lean 4 theorems: v4 and v5 list round trips for every DW_LLE/DW_RLE kind (padded ULEB128, any expression length), translation through the address table, offset-table '
